@@ -131,6 +131,7 @@ type ConvOut struct {
 	FloorPre *big.Int // 10% of the original (origin units)
 	SlipMin  *big.Int // original * (1 - slip) (origin units)
 	FirstPre *big.Int // first-pass value the slip test saw
+	ZeroValue bool    // reverted because the repriced value is zero
 }
 
 func effSlip(s int) *big.Int {
@@ -227,14 +228,24 @@ func Reprice(in []ConvIn, cur, nw Rate, flow, kq *big.Int, increasing, swapArgs 
 		}
 		p := pre(c, total)
 		out[i].Pre = p
+		// the second pass stores the value translated at the header's own rate; a conversion whose value is
+		// zero at that point is the one the revert marking picks up ("value zero => revert with the original")
+		var atHeaderRate *big.Int
 		if c.ToQi {
 			realized.Add(realized, p)
+			atHeaderRate = cur.QuaiToQi(p)
 			out[i].Value = nw.QuaiToQi(p)
 			out[i].Implied = nw.QuaiToQi(c.Value)
 		} else {
-			realized.Add(realized, cur.QiToQuai(p))
+			atHeaderRate = cur.QiToQuai(p)
+			realized.Add(realized, atHeaderRate)
 			out[i].Value = nw.QiToQuai(p)
 			out[i].Implied = nw.QiToQuai(c.Value)
+		}
+		if atHeaderRate.Sign() == 0 {
+			out[i].Revert = true
+			out[i].Value = new(big.Int).Set(c.Value)
+			out[i].ZeroValue = true
 		}
 	}
 	return out, total, realized
